@@ -194,8 +194,25 @@ Lemma reach_maxsize : forall c s, Reach c s -> maxsize s = c_maxsize c.
 Proof. induction 1; [reflexivity|]. erewrite step_maxsize; eauto. Qed.
 
 (* ---------------------------------------------------------------- history: conservation + global FIFO *)
-Definition hist_inv (s : state) : Prop :=
-  pinned s = false -> sent s = received s ++ reals (q s) /\ unfin s = length (q s).
+Definition nocancel_state (s : state) : Prop := forallb task_nocancel (tasks s) = true.
+
+(* the task at hand contradicts the absence of cancellation *)
+Ltac nocancel_contra :=
+  match goal with
+  | N : nocancel_state ?s, E : nth_error (tasks ?s) _ = Some ?T |- _ =>
+      let HN := fresh "HN" in
+      pose proof (forallb_nth _ _ _ _ N E) as HN; unfold task_nocancel in HN;
+      repeat match goal with
+             | E1 : st T = _ |- _ => rewrite E1 in HN
+             | E1 : mc T = _ |- _ => rewrite E1 in HN
+             | E1 : prog T = _ |- _ => rewrite E1 in HN
+             end;
+      cbn in HN; rewrite ?andb_false_r in HN; discriminate HN
+  end.
+
+Definition hist_body (s : state) : Prop :=
+  sent s = received s ++ reals (q s) /\ unfin s = length (q s).
+Definition hist_inv (s : state) : Prop := pinned s = false -> hist_body s.
 
 Lemma reals_app : forall a b, reals (a ++ b) = reals a ++ reals b.
 Proof. intros. unfold reals. apply filter_app. Qed.
@@ -205,16 +222,25 @@ Ltac simp_proj :=
        set_task with_tasks with_getters with_putters with_W with_unfin with_drained
        wake_getters wake_putters put_nowait] in *.
 
-Lemma hist_step : forall s t s', step s t = Some s' -> hist_inv s -> hist_inv s'.
+(* holds for the repaired code always, and for the pinned code as long as nothing is cancelled *)
+Lemma hist_step_gen : forall s t s', step s t = Some s' ->
+  pinned s = false \/ nocancel_state s -> hist_body s -> hist_body s'.
 Proof.
-  intros s t s' H I. step_inv H; simp_proj; unfold hist_inv, received in *; simp_proj; try exact I.
-  all: intros P; specialize (I P); destruct I as [I1 I2]; try congruence.
+  intros s t s' H P I. step_inv H; simp_proj; unfold hist_body, received in *; simp_proj; try exact I.
+  all: destruct I as [I1 I2].
+  all: try (destruct P as [P|P]; [congruence|nocancel_contra]).
   all: repeat match goal with E : q _ = _ |- _ => rewrite E in *; clear E end.
   all: cbn [length] in *.
   all: split; [|rewrite ?app_length; cbn [length]; try lia; try congruence].
   all: try (rewrite I1, ?map_app, ?reals_app; cbn [map snd reals filter is_real app]; rewrite <- ?app_assoc; reflexivity).
   all: cbn [reals filter is_real] in I1; rewrite ?reals_app; cbn [reals filter is_real]; rewrite ?app_nil_r; try exact I1.
   all: exfalso; lia.
+Qed.
+
+Lemma hist_step : forall s t s', step s t = Some s' -> hist_inv s -> hist_inv s'.
+Proof.
+  intros s t s' H I P. pose proof (step_pinned _ _ _ H) as HP. rewrite P in HP. symmetry in HP.
+  eapply hist_step_gen; eauto.
 Qed.
 
 (* ---------------------------------------------------------------- which future _wakeup_next completed *)
